@@ -63,10 +63,29 @@ static void op_tagname(int nt, char **t) {
     printf("tagname %s", s);
 }
 
+/* tagname_range lo hi: every z in [lo,hi] whose name differs from the name of INT_MIN */
+static void op_tagname_range(int nt, char **t) {
+    (void) nt;
+    long long lo = tok_ll(t[1]), hi = tok_ll(t[2]);
+    const char *d;
+    LIB(d = libwifi_get_tag_name((-2147483647 - 1)));
+    printf("tagname_range default=%s", d ? d : "null");
+    for (long long z = lo; z <= hi; z++) {
+        const char *s;
+        LIB(s = libwifi_get_tag_name((int) z));
+        if (s != d && (s == NULL || d == NULL || strcmp(s, d) != 0)) printf(" %lld=%s", z, s ? s : "null");
+    }
+}
+
+/* the enumerators themselves are observed at compile time by the translator's probe */
+static void op_enumcheck(int nt, char **t) { (void) nt; (void) t; printf("enumcheck compiled"); }
+
 const struct op ops_misc[] = {
     {"epoch", op_epoch},
     {"epoch2", op_epoch2},
     {"epoch_frames", op_epoch_frames},
     {"tagname", op_tagname},
+    {"tagname_range", op_tagname_range},
+    {"enumcheck", op_enumcheck},
     {NULL, NULL},
 };
